@@ -31,7 +31,7 @@ COMPONENTS = {
 }
 ASSUMPTIONS = ["pymalloc hands a freed block out again unless it is taken: address-derived hashes are exposed by holding blocks (robust in practice, not guaranteed by the language)"]
 EXPECTED_PROBES = ["alloc_between_hashes", "cross_class_eq", "cross_class_order", "lookup_through_twin", "sorted_heterogeneous",
-                   "basis_kinds_compared", "transitivity_triple", "vinc_vs_cov", "id_reused"]
+                   "basis_kinds_compared", "transitivity_triple", "vinc_vs_cov", "id_reused", "derived_from_used_object"]
 
 
 def plan(tier):
@@ -327,8 +327,18 @@ def gen_case(rng, tier):
                 ops.append({"op": "recurse", "depth": rng.choice([10, 100, 400])})
             elif rr < 0.9:
                 ops.append({"op": "gc"})
-            elif rr < 0.95:
+            elif rr < 0.93:
                 ops.append({"op": "rebuild", "obj": pick()})
+            elif rr < 0.97:
+                # an equal value obtained through a library operation on an object that
+                # has already been hashed / compared (involutions applied twice, shade)
+                g = rng.choice(["meshlike", "meshlike", "perm"])
+                if g in groups:
+                    i = pick(g)
+                    how = rng.choice(["rr", "cc", "ii", "rot4", "shade", "shade", "shade_same"] if g == "meshlike" else ["rr", "cc", "ii", "rot4"])
+                    k = len(pool[i]["perm"])
+                    cells = [[rng.randint(0, k), rng.randint(0, k)] for _ in range(rng.randint(1, 3))]
+                    ops.append({"op": "derive", "obj": i, "how": how, "cells": cells})
             else:
                 # id reuse: free one object, build a different one of the same
                 # kind where it was, compare it with its own twin
@@ -590,6 +600,56 @@ def execute(case):
             vals.append(vals[i])
             check_eq(i, len(objs) - 1)
             alloc_fault("rebuild_equal_object")
+        elif kind == "derive":
+            i = op["obj"]
+            if group(descs[i]) not in ("meshlike", "perm"):
+                continue
+            check_hash(i, "before derive")
+            src = objs[i]
+            try:
+                how = op["how"]
+                if how == "rr":
+                    new = src.reverse().reverse()
+                elif how == "cc":
+                    new = src.complement().complement()
+                elif how == "ii":
+                    new = src.inverse().inverse()
+                elif how == "rot4":
+                    new = src.rotate().rotate().rotate().rotate()
+                elif how == "shade_same":
+                    cells = sorted(vals[i][2])[:2]
+                    new = src.shade(*cells) if cells else src.shade()
+                else:
+                    new = src.shade(*[tuple(c) for c in op["cells"]])
+            except AttributeError:
+                continue
+            except Exception as exc:  # pylint: disable=broad-except
+                hist.violate("exception", {"op": "derive:" + op["how"], "type": type(exc).__name__}, f"{descs[i]}: {exc}")
+                break
+            if op["how"] == "shade":
+                want = ("mesh", vals[i][1], frozenset(vals[i][2] | {tuple(c) for c in op["cells"]}))
+            else:
+                want = vals[i]
+            if want[0] == "perm":
+                direct_desc = {"t": "perm", "perm": list(want[1]), "route": "fresh"}
+            else:
+                direct_desc = {"t": "mesh", "perm": list(want[1]), "shading": [list(c) for c in sorted(want[2])], "order": "given"}
+            direct = build(direct_desc)
+            descs = list(descs) + [dict(direct_desc, derived_by=op["how"]), direct_desc]
+            objs.extend([new, direct])
+            vals.extend([want, want])
+            out.probe("derived_from_used_object")
+            alloc_fault("derived_object")
+            check_eq(len(objs) - 2, len(objs) - 1)
+            if not hist.violations:
+                try:
+                    found = new in {direct} and direct in {new: 1}
+                except Exception as exc:  # pylint: disable=broad-except
+                    hist.violate("exception", {"op": "lookup", "type": type(exc).__name__}, f"{exc}")
+                    break
+                if not found:
+                    hist.violate("lookup_wrong", {"cont": "set", "cls": _cls(new), "want": True},
+                                 f"{op['how']} of {descs[i]} is not found in a set/dict holding the directly built equal pattern")
         elif kind == "replace":
             i = op["obj"]
             check_hash(i, "before replace")
